@@ -22,6 +22,109 @@ class Violation(Exception):
     """The property under test does not hold for the current case."""
 
 
+class CaseTimeout(BaseException):
+    """A generous per-case watchdog fired: the case is *inconclusive*."""
+
+
+class time_limit:  # noqa: N801
+    """``with time_limit(60): ...`` raises CaseTimeout after 60 s of wall time.
+
+    A hit is never a violation (use ``ctx.rec.inconc``). Only the main thread
+    of a worker may use it; nesting is not supported.
+    """
+
+    def __init__(self, seconds: float) -> None:
+        self.seconds = seconds
+
+    def __enter__(self) -> "time_limit":
+        import signal
+
+        def handler(_sig: int, _frm: Any) -> None:
+            raise CaseTimeout()
+
+        self.old = signal.signal(signal.SIGALRM, handler)
+        # repeat every 2 s after the first hit: an exception raised inside a
+        # destructor, a gc callback or library code with a catch-all handler
+        # is swallowed, the next one gets through
+        signal.setitimer(signal.ITIMER_REAL, self.seconds, 2.0)
+        return self
+
+    def __exit__(self, *a: Any) -> None:
+        import signal
+        signal.setitimer(signal.ITIMER_REAL, 0)
+        signal.signal(signal.SIGALRM, self.old)
+
+
+def isolated(fn: Callable[[], Any], seconds: float) -> Any:
+    """Run ``fn()`` in a forked child; return its (picklable) result.
+
+    A Violation raised in the child is re-raised here; any other exception
+    becomes a HarnessError. If the child needs more than ``seconds`` it is
+    killed and CaseTimeout is raised - the parent's state is untouched, which
+    makes this the safe watchdog for code that cannot be interrupted cleanly
+    (numba compilation, nested optimisation runs).
+    """
+    import pickle
+    import select
+    import signal
+    rfd, wfd = os.pipe()
+    pid = os.fork()
+    if pid == 0:  # child
+        code = 0
+        try:
+            os.close(rfd)
+            try:
+                payload = ("ok", fn())
+            except Violation as v:
+                payload = ("violation", str(v))
+            except BaseException:  # noqa: BLE001
+                payload = ("error", traceback.format_exc())
+            data = pickle.dumps(payload)
+            with os.fdopen(wfd, "wb") as f:
+                f.write(data)
+        except BaseException:  # noqa: BLE001
+            code = 3
+        finally:
+            os._exit(code)
+    os.close(wfd)
+    chunks: list[bytes] = []
+    deadline = time.monotonic() + seconds
+    timed_out = False
+    try:
+        while True:
+            left = deadline - time.monotonic()
+            if left <= 0:
+                timed_out = True
+                break
+            ready, _, _ = select.select([rfd], [], [], min(left, 1.0))
+            if ready:
+                chunk = os.read(rfd, 1 << 16)
+                if not chunk:
+                    break
+                chunks.append(chunk)
+    finally:
+        os.close(rfd)
+        if timed_out:
+            try:
+                os.kill(pid, signal.SIGKILL)
+            except ProcessLookupError:
+                pass
+        _, status = os.waitpid(pid, 0)
+    if timed_out:
+        raise CaseTimeout()
+    if not chunks:
+        if os.WIFSIGNALED(status):
+            raise Violation("the code under test crashed the interpreter with"
+                            f" signal {os.WTERMSIG(status)}")
+        raise HarnessError(f"isolated child exited with status {status}")
+    kind, value = pickle.loads(b"".join(chunks))
+    if kind == "ok":
+        return value
+    if kind == "violation":
+        raise Violation(value)
+    raise HarnessError("exception in isolated child:\n" + value)
+
+
 class HarnessError(Exception):
     """The machinery itself is broken (never reported as a violation)."""
 
@@ -285,7 +388,13 @@ class Ctx:
         holder: dict[str, Any] = {}
         ctx = self
 
+        trace = os.environ.get("VERIF_TRACE")
+
         def test(case: Any) -> None:
+            if trace:  # debugging aid: the case being executed right now
+                with open(f"{trace}.{ctx.prop}.{ctx.shard}", "w",
+                          encoding="utf-8") as tf:
+                    tf.write(sub + " " + canon(case) + "\n")
             try:
                 fn(ctx, case)
             except Violation as v:
@@ -391,7 +500,7 @@ def sut(what: str, fn: Callable, *args: Any,
         return fn(*args, **kw)
     except allowed:
         raise
-    except (KeyboardInterrupt, SystemExit, MemoryError):
+    except (KeyboardInterrupt, SystemExit, MemoryError, CaseTimeout):
         raise
     except Violation:
         raise
